@@ -100,11 +100,15 @@ enum Driven {
     Instr(TearSheetGenerator),
 }
 
+/// A closed position with realised PnL `pnl`, exited at `t`. The entry notional is huge (1e27) so
+/// that the *returns* data set of `PnLReturns` (C16/C17 territory, not observed here) stays
+/// numerically trivial: with notional 1 some variances make `Decimal::sqrt` panic inside
+/// `Dispersion::update` ("geo mean circuit breaker") before the drawdown code is reached.
 fn position(pnl: Decimal, t: DateTime<Utc>) -> PositionExited<AssetIndex, InstrumentIndex> {
     PositionExited {
         instrument: InstrumentIndex(0),
         side: Side::Buy,
-        price_entry_average: Decimal::ONE,
+        price_entry_average: Decimal::from_i128_with_scale(10i128.pow(27), 0),
         quantity_abs_max: Decimal::ONE,
         pnl_realised: pnl,
         fees_enter: AssetFees::new(AssetIndex(0), Decimal::ZERO),
